@@ -125,6 +125,19 @@ evaluating context). The model is a model of the repaired tree.
   (recursion limit, integer-digit limit, working directory, environment, decimal context, warning filters, thread count, `sys.path`) and
   every module-level and class-level attribute of every loaded `ducklingscript` module (plain introspection, no hook) — what DESIGN §5/C17
   planned and the construction phase had left out.
+* **Tighter tie for the command line** (session 4): until now the CLI model (`Model/Cli.lean`: `cliCompile` over an abstract file system —
+  the function the C19 theorems are about) was tied to the code only through the oracle on the real CLI. The driver has a new op `cli`
+  that runs `cliCompile` on the same sequences of invocations (files, project / global configuration by meaning, prior bytes at the
+  output path, edits of the project file between invocations), and `props/C19.model_diff` compares every step with the real
+  `cli.compile.compile`: success / failure, the bytes at the output path, which files changed, the error class, the lines of the last five
+  trace entries, the prints, and what the project and global `config.yaml` denote afterwards (≈ 360 of the 446 quick-tier sequences are
+  in the model's domain). First run: 17 disagreements, all for `stack_limit: 0` in the home file — `Stack.__init__` compares the
+  pile's length with the limit by `==`, so 0 (which only a configuration file can say; the command line accepts 5..200) DISABLES the
+  limit, while the model's `exec (limit − 1)` made it "overflow at once". The model was wrong about the code; `compileFile` and the
+  driver now answer outOfModel for an effective limit of 0 (`C15_entry_points` carries the hypothesis). The number of warnings is not
+  compared (identity vs value de-duplication, §2.5).
+* **Signed and decimal literals** (session 4, Lemmas/LexNum): `[-]digits[.digits]` as a leaf of the scanner theorems (`Atom.lit`); with the
+  group leaves this leaves only names beginning with T/F inside compound expressions outside `C04_lex_expr`.
 * **Tighter tie for the scanner** (session 3): the correspondence now also compares the scanner's TOKEN LIST
   (`Tokenizer.__convert_string`: classes, operator texts, leaf values, inner texts and `!` flags of groups) with the model's `lex` —
   the very function `lex_digits`, `lex_name`, `lex_flat`, `lex_flatB` are about — on structured expressions in random layouts and on
@@ -309,6 +322,21 @@ without try/finally leaks a raised recursion limit after a failed compile); (4) 
 Compiler* — printing-then-failing, printing-then-succeeding, failing inside an import (C18-p: the Compiler owns the log);
 (5) *defining constructs used a second time* — the same function name defined validly before, the construct inside a function run
 twice, in a file imported twice (C20-o: the name check skipped for a re-definition).
+
+Round 9 (`-q`, `-r`, the ten properties of round 7 again, twenty changes; asked for two cooperating edit sites, error paths,
+interleavings of features, unusual but legal input shapes) was first MISSED in seven of twenty cases. Built in: (1) *warnings after
+other compilations on the same Compiler* — programs that met unknown commands and then failed, or succeeded, before a known-only
+program (C16-r: the Compiler owns a warnings list that is emptied only on success); (2) *files with no code at all* — zero bytes,
+blank lines, white space only — imported again and again, along two paths, in a loop, through a file that only imports them (C13-q:
+a stack with no commands became falsy and stayed on the pile; round 8's C14-o was the same mechanism seen from C14); (3) *every
+spelling of the START family in the contracts* — `$START "name"`, `$startcode "na"+"me"`, other letter case (C12-q: the mode read from
+the name before the `$` is stripped); (4) *the clauses of C02 judged after other compilations* on the same Compiler built with an
+explicit options object, among them files whose STARTENV / START import failed (C02-q: suppression switched on for the STARTENV file
+and not switched off on the error path); (5) *grouped definitions* — a later line of a VAR group reads what an earlier line of the same
+group defined (C04-q: all values evaluated before any is stored); (6) *imports in a loop body change what the condition reads* while
+the body assigns nothing (C06-r: an "assigned" flag that the import's hand-back does not set); (7) *parameter names that clash with
+the caller's variables* — a global, a loop counter, the caller's own parameters handed on in another order (C07-r: parameters bound
+before the caller's variables are copied in; `C07_bind_positional` states exactly this, the generators had avoided the clash).
 
 | id | property | change | caught by |
 |---|---|---|---|
